@@ -24,6 +24,7 @@ package k8s
 //@     && !(pts(pc.DeniedConns, q, n) && pts(pc.PassConns, q, n))
 
 //@ func NewPolicyConnections
+//@   ensures [C02,C01,C06] kept: allKept()
 //@   ensures [C02] wf: wfPC(res) && fresh(res) && fresh(res.AllowedConns) && fresh(res.DeniedConns) && fresh(res.PassConns)
 //@   ensures [C02] empty: !res.AllowedConns.AllowAll && !res.DeniedConns.AllowAll && !res.PassConns.AllowAll
 //@         && (forall q v1.Protocol :: {q in res.AllowedConns.AllowedProtocols} !(q in res.AllowedConns.AllowedProtocols))
@@ -473,3 +474,72 @@ package k8s
 //@   ensures agree: (c.AllowAll || (exists q v1.Protocol :: q in c.AllowedProtocols && foldEq(protocol, q) && iset(c.AllowedProtocols[q].Ports)[atoiVal(port)]))
 //@         == (exists k int :: {np.Spec.Ingress[k]} 0 <= k && k < len(np.Spec.Ingress)
 //@              && peerMatch(np, np.Spec.Ingress[k].From, src) && portsContain(np.Spec.Ingress[k].Ports, dst, protocol, port))
+
+// ---------------------------------------------------------------------------------------------
+// entire-cluster exposure data of a pod (C06, C08): accumulation of the selecting policies' cluster-wide sets
+// ---------------------------------------------------------------------------------------------
+
+// numeric points of the converted copy: those of the original, plus - for each named port of the original - the number
+// the pod itself declares under that name and protocol (C06: a named port means that name as declared by the pod)
+//@ pred convSound(pod *Pod, conns *common.ConnectionSet, res *common.ConnectionSet) = forall q v1.Protocol, n int :: {iset(res.AllowedProtocols[q].Ports)[n]}
+//@     ptsP(res, q, n) ==> (ptsP(conns, q, n) || (exists s string :: npts(conns, q, s) && namedMatch(pod.Ports, s, q, n)))
+//@ pred convKeeps(conns *common.ConnectionSet, res *common.ConnectionSet) = forall q v1.Protocol, n int :: {iset(conns.AllowedProtocols[q].Ports)[n]} {iset(res.AllowedProtocols[q].Ports)[n]}
+//@     ptsP(conns, q, n) ==> ptsP(res, q, n)
+
+//@ func (*Pod).checkAndConvertNamedPortsInConnection
+//@   requires pod != nil && validPodPorts(pod) && wfCS(conns)
+//@   modifies *
+//@   ensures [C06,C08] kept: allKept()
+//@   ensures [C06] nonames: res == nil ==> (forall q v1.Protocol, s string :: {s in conns.AllowedProtocols[q].NamedPorts} !npts(conns, q, s))
+//@   ensures [C06,C08] copy: res != nil ==> (wfCS(res) && fresh(res) && freshSep(res) && res.AllowAll == conns.AllowAll)
+//@   ensures [C06] keeps: res != nil ==> convKeeps(conns, res)
+//@   ensures [C06] sound: res != nil ==> convSound(pod, conns, res)
+//@   loop 1:
+//@     invariant wf: wfCS(connsCopy) && fresh(connsCopy) && freshSep(connsCopy) && allKept() && connsCopy.AllowAll == conns.AllowAll
+//@     invariant dom: dom(connsCopy.AllowedProtocols) == dom(conns.AllowedProtocols)
+//@     invariant names: forall q v1.Protocol :: {q in connNamedPorts} q in connNamedPorts ==> (q in conns.AllowedProtocols
+//@         && (forall i int :: {connNamedPorts[q][i]} (0 <= i && i < len(connNamedPorts[q])) ==> connNamedPorts[q][i] in conns.AllowedProtocols[q].NamedPorts))
+//@     invariant keeps: convKeeps(conns, connsCopy)
+//@     invariant sound: convSound(pod, conns, connsCopy)
+//@   loop 2:
+//@     invariant wf: wfCS(connsCopy) && fresh(connsCopy) && freshSep(connsCopy) && allKept() && connsCopy.AllowAll == conns.AllowAll
+//@     invariant dom: dom(connsCopy.AllowedProtocols) == dom(conns.AllowedProtocols)
+//@     invariant names: forall q v1.Protocol :: {q in connNamedPorts} q in connNamedPorts ==> (q in conns.AllowedProtocols
+//@         && (forall i int :: {connNamedPorts[q][i]} (0 <= i && i < len(connNamedPorts[q])) ==> connNamedPorts[q][i] in conns.AllowedProtocols[q].NamedPorts))
+//@     invariant cur: protocol in connNamedPorts && namedPorts == connNamedPorts[protocol]
+//@     invariant keeps: convKeeps(conns, connsCopy)
+//@     invariant sound: convSound(pod, conns, connsCopy)
+
+// the two accumulators of a pod are well-formed sets that share nothing with each other
+//@ pred podExpOK(pod *Pod) = pod != nil && wfCS(pod.IngressExposureData.ClusterWideConnection) && wfCS(pod.EgressExposureData.ClusterWideConnection)
+//@     && sepCS(pod.IngressExposureData.ClusterWideConnection, pod.EgressExposureData.ClusterWideConnection)
+// acc after = acc before, united with x (point sets)
+//@ pred ptsPlus(acc *common.ConnectionSet, x *common.ConnectionSet) = forall q v1.Protocol, n int ::
+//@     {iset(acc.AllowedProtocols[q].Ports)[n]} {old(iset(acc.AllowedProtocols[q].Ports)[n])} {old(iset(x.AllowedProtocols[q].Ports)[n])}
+//@     pts(acc, q, n) == (old(pts(acc, q, n)) || old(pts(x, q, n)))
+//@ pred ptsGrows(acc *common.ConnectionSet, x *common.ConnectionSet) = forall q v1.Protocol, n int ::
+//@     {iset(acc.AllowedProtocols[q].Ports)[n]} {old(iset(acc.AllowedProtocols[q].Ports)[n])} {old(iset(x.AllowedProtocols[q].Ports)[n])}
+//@     (old(pts(acc, q, n)) || old(pts(x, q, n))) ==> pts(acc, q, n)
+// every point the accumulator gained is a point of x, or the number the pod declares for a named port of x (C06)
+//@ pred ptsGainSound(pod *Pod, acc *common.ConnectionSet, x *common.ConnectionSet) = forall q v1.Protocol, n int ::
+//@     {iset(acc.AllowedProtocols[q].Ports)[n]} {old(iset(acc.AllowedProtocols[q].Ports)[n])}
+//@     pts(acc, q, n) ==> (old(pts(acc, q, n)) || old(pts(x, q, n)) || (exists s string :: old(npts(x, q, s)) && namedMatch(pod.Ports, s, q, n)))
+
+// The pod's accumulator for the direction is united in place with the policy's set; the accumulator objects stay the
+// pod's own (never aliased to the argument), the argument and every other separate set are untouched.
+//@ func (*Pod).UpdatePodXgressExposureToEntireClusterData
+//@   requires podExpOK(pod) && validPodPorts(pod) && wfCS(ruleConns)
+//@   requires sepCS(pod.IngressExposureData.ClusterWideConnection, ruleConns) && sepCS(pod.EgressExposureData.ClusterWideConnection, ruleConns)
+//@   modifies *
+//@   ensures [C06,C08] own: pod.IngressExposureData == old(pod.IngressExposureData) && pod.EgressExposureData == old(pod.EgressExposureData) && pod.Ports == old(pod.Ports)
+//@   ensures [C06,C08] wf: podExpOK(pod)
+//@   ensures [C06,C08] others: othersKept(if isIngress then pod.IngressExposureData.ClusterWideConnection else pod.EgressExposureData.ClusterWideConnection)
+//@   ensures [C06,C08] egress: !isIngress ==> ptsPlus(pod.EgressExposureData.ClusterWideConnection, ruleConns)
+//@   ensures [C06,C08] ingress: isIngress ==> ptsGrows(pod.IngressExposureData.ClusterWideConnection, ruleConns)
+//@   ensures [C06] ingressSound: isIngress ==> ptsGainSound(pod, pod.IngressExposureData.ClusterWideConnection, ruleConns)
+
+// what one policy allows between the two ends in a direction (C01): the union over its rules
+//@ fun ingressPolicyPts(np *NetworkPolicy, src Peer, dst Peer, q string, n int) bool =
+//@     exists k int :: {np.Spec.Ingress[k]} 0 <= k && k < len(np.Spec.Ingress) && ingressRulePts(np, k, src, dst, q, n)
+//@ fun egressPolicyPts(np *NetworkPolicy, dst Peer, q string, n int) bool =
+//@     exists k int :: {np.Spec.Egress[k]} 0 <= k && k < len(np.Spec.Egress) && egressRulePts(np, k, dst, q, n)
